@@ -16,18 +16,21 @@ type Edge struct {
 	S, T int            // node ids
 	A    map[string]any // action label + arguments
 	O    []any          // expected outputs (set of records)
-	TS   []any          // target state [alloc, perm, chan, ...]
+	TS   any            // target state
+	SS   any            // source state
 	Cls  string         // (action, outcome) class
 }
 
 // Graph is the edge dump of one TLC generation run.
 type Graph struct {
-	Meta   Meta
-	Edges  []Edge
-	Out    [][]int // node -> edge indexes
-	Init   int
-	Nodes  int
-	parent []int // BFS tree: edge index reaching the node (-1 for Init)
+	Meta    Meta
+	Edges   []Edge
+	Out     [][]int // node -> edge indexes
+	Init    int
+	Inits   []int
+	Skipped int
+	Nodes   int
+	parent  []int // BFS tree: edge index reaching the node (-1 for Init)
 }
 
 func canon(v any) string {
@@ -74,15 +77,15 @@ func LoadGraph(path string) (*Graph, error) {
 			continue
 		}
 		var raw struct {
-			S []any          `json:"s"`
+			S any            `json:"s"`
 			A map[string]any `json:"a"`
 			O []any          `json:"o"`
-			T []any          `json:"t"`
+			T any            `json:"t"`
 		}
 		if err := json.Unmarshal([]byte(un[5:]), &raw); err != nil {
 			return nil, fmt.Errorf("edge: %w", err)
 		}
-		e := Edge{S: node(raw.S), T: node(raw.T), A: raw.A, O: raw.O, TS: raw.T}
+		e := Edge{S: node(raw.S), T: node(raw.T), A: raw.A, O: raw.O, TS: raw.T, SS: raw.S}
 		if g.Init < 0 {
 			g.Init = e.S // TLC's breadth-first search starts at Init
 		}
@@ -97,39 +100,70 @@ func LoadGraph(path string) (*Graph, error) {
 	for i, e := range g.Edges {
 		g.Out[e.S] = append(g.Out[e.S], i)
 	}
-	// BFS tree
+	g.BFS(nil)
+
+	return g, nil
+}
+
+// BFS (re)computes the shortest-path tree from the initial states, never using an edge in bad.
+func (g *Graph) BFS(bad map[int]bool) {
 	g.parent = make([]int, g.Nodes)
 	for i := range g.parent {
 		g.parent[i] = -2
 	}
-	if g.Init >= 0 {
-		g.parent[g.Init] = -1
-		q := []int{g.Init}
-		for len(q) > 0 {
-			n := q[0]
-			q = q[1:]
-			for _, ei := range g.Out[n] {
-				t := g.Edges[ei].T
-				if g.parent[t] == -2 {
-					g.parent[t] = ei
-					q = append(q, t)
-				}
+	if g.Init < 0 {
+		return
+	}
+	if g.Inits == nil {
+		// initial states: the source of the first edge and every node no other node leads to
+		indeg := make([]int, g.Nodes)
+		for _, e := range g.Edges {
+			if e.S != e.T {
+				indeg[e.T]++
+			}
+		}
+		g.Inits = []int{g.Init}
+		for n := 0; n < g.Nodes; n++ {
+			if indeg[n] == 0 && n != g.Init && len(g.Out[n]) > 0 {
+				g.Inits = append(g.Inits, n)
 			}
 		}
 	}
-
-	return g, nil
+	q := []int{}
+	for _, n := range g.Inits {
+		g.parent[n] = -1
+		q = append(q, n)
+	}
+	for len(q) > 0 {
+		n := q[0]
+		q = q[1:]
+		for _, ei := range g.Out[n] {
+			if bad[ei] {
+				continue
+			}
+			t := g.Edges[ei].T
+			if g.parent[t] == -2 {
+				g.parent[t] = ei
+				q = append(q, t)
+			}
+		}
+	}
 }
 
 // edgeClass names the (action, guard outcome) class of an edge: the label, the interesting
 // argument classes, the kinds of outputs and whether the state changed.
 func edgeClass(e Edge, changed bool) string {
 	parts := []string{fmt.Sprint(e.A["a"])}
+	for _, f := range []string{"m", "k", "mut", "beyond", "kind"} {
+		if v, ok := e.A[f]; ok {
+			parts = append(parts, f+"="+fmt.Sprint(v))
+		}
+	}
 	outs := []string{}
 	for _, o := range e.O {
 		m, _ := o.(map[string]any)
 		s := fmt.Sprint(m["k"])
-		for _, f := range []string{"cls", "code", "via"} {
+		for _, f := range []string{"cls", "code", "via", "ok"} {
 			if v, ok := m[f]; ok {
 				s += ":" + fmt.Sprint(v)
 			}
@@ -159,57 +193,61 @@ func (g *Graph) prefix(n int) []int {
 	return rev
 }
 
-// Plan returns paths (sequences of edge indexes starting at Init) that together cover the
-// wanted edges: all of them (frac >= 1) or every class plus a seeded sample.
-func (g *Graph) Plan(seed int64, frac float64, perClass int, maxLen int) [][]int {
+// Want selects the edges to walk: all of them (frac >= 1) or every class plus a seeded sample.
+func (g *Graph) Want(seed int64, frac float64, perClass int) []bool {
 	rng := rand.New(rand.NewSource(seed)) //nolint:gosec
 	want := make([]bool, len(g.Edges))
-	nwant := 0
 	if frac >= 1 {
 		for i := range want {
 			want[i] = true
 		}
-		nwant = len(want)
-	} else {
-		byCls := map[string][]int{}
-		for i, e := range g.Edges {
-			byCls[e.Cls] = append(byCls[e.Cls], i)
-		}
-		classes := make([]string, 0, len(byCls))
-		for c := range byCls {
-			classes = append(classes, c)
-		}
-		sort.Strings(classes)
-		for _, c := range classes {
-			l := byCls[c]
-			rng.Shuffle(len(l), func(i, j int) { l[i], l[j] = l[j], l[i] })
-			for k := 0; k < perClass && k < len(l); k++ {
-				if !want[l[k]] {
-					want[l[k]] = true
-					nwant++
-				}
-			}
-		}
-		for i := range want {
-			if !want[i] && rng.Float64() < frac {
-				want[i] = true
-				nwant++
-			}
+
+		return want
+	}
+	byCls := map[string][]int{}
+	for i, e := range g.Edges {
+		byCls[e.Cls] = append(byCls[e.Cls], i)
+	}
+	classes := make([]string, 0, len(byCls))
+	for c := range byCls {
+		classes = append(classes, c)
+	}
+	sort.Strings(classes)
+	for _, c := range classes {
+		l := byCls[c]
+		rng.Shuffle(len(l), func(i, j int) { l[i], l[j] = l[j], l[i] })
+		for k := 0; k < perClass && k < len(l); k++ {
+			want[l[k]] = true
 		}
 	}
-	order := make([]int, 0, nwant)
+	for i := range want {
+		if !want[i] && rng.Float64() < frac {
+			want[i] = true
+		}
+	}
+
+	return want
+}
+
+// PlanFor returns paths (sequences of edge indexes starting at an initial state) that together
+// cover the wanted edges not yet done, never passing through an edge in bad.
+func (g *Graph) PlanFor(want []bool, done, bad map[int]bool, maxLen int) [][]int {
+	g.BFS(bad)
+	order := make([]int, 0)
 	for i, w := range want {
-		if w && g.parent[g.Edges[i].S] != -2 {
+		if w && !done[i] && !bad[i] && g.parent[g.Edges[i].S] != -2 {
 			order = append(order, i)
 		}
 	}
 	// deepest sources first: their prefixes cover many shallow edges on the way
 	depth := make([]int, g.Nodes)
 	for n := range depth {
-		depth[n] = len(g.prefix(n))
+		if g.parent[n] != -2 {
+			depth[n] = len(g.prefix(n))
+		}
 	}
 	sort.SliceStable(order, func(a, b int) bool { return depth[g.Edges[order[a]].S] > depth[g.Edges[order[b]].S] })
-	covered := make([]bool, len(g.Edges))
+	covered := map[int]bool{}
 	var paths [][]int
 	for _, ei := range order {
 		if covered[ei] {
@@ -224,7 +262,7 @@ func (g *Graph) Plan(seed int64, frac float64, perClass int, maxLen int) [][]int
 		for len(p) < maxLen {
 			next := -1
 			for _, oe := range g.Out[cur] {
-				if want[oe] && !covered[oe] {
+				if want[oe] && !covered[oe] && !done[oe] && !bad[oe] {
 					next = oe
 
 					break
@@ -238,6 +276,75 @@ func (g *Graph) Plan(seed int64, frac float64, perClass int, maxLen int) [][]int
 			cur = g.Edges[next].T
 		}
 		paths = append(paths, p)
+	}
+
+	return paths
+}
+
+// RandomWalks returns n seeded random paths of the given length from the initial states.
+// Edges that change the state are preferred (probability 0.6) so that histories are rich:
+// edge coverage alone reaches every state by its shortest prefix and would never revisit a
+// state through a longer history, which is where stale timers and leftovers hide.
+func (g *Graph) RandomWalks(seed int64, n, length int, bad map[int]bool) [][]int {
+	rng := rand.New(rand.NewSource(seed ^ 0x5eed)) //nolint:gosec
+	var paths [][]int
+	for k := 0; k < n; k++ {
+		cur := g.Inits[rng.Intn(len(g.Inits))]
+		var p []int
+		for len(p) < length {
+			var chg, all []int
+			for _, ei := range g.Out[cur] {
+				if bad[ei] {
+					continue
+				}
+				all = append(all, ei)
+				if g.Edges[ei].T != cur {
+					chg = append(chg, ei)
+				}
+			}
+			if len(all) == 0 {
+				break
+			}
+			pick := all[rng.Intn(len(all))]
+			if len(chg) > 0 && rng.Float64() < 0.6 {
+				pick = chg[rng.Intn(len(chg))]
+			}
+			p = append(p, pick)
+			cur = g.Edges[pick].T
+		}
+		if len(p) > 0 {
+			paths = append(paths, p)
+		}
+	}
+
+	return paths
+}
+
+// Traces splits the edge list, taken in file order, into behaviours: consecutive edges whose
+// source is the previous edge's target belong to one behaviour (output of `tlc -simulate`).
+func (g *Graph) Traces() [][]int {
+	isInit := map[int]bool{}
+	for _, n := range g.Inits {
+		isInit[n] = true
+	}
+	var paths [][]int
+	var cur []int
+	for i, e := range g.Edges {
+		switch {
+		case len(cur) > 0 && g.Edges[cur[len(cur)-1]].T == e.S:
+			cur = append(cur, i)
+		case isInit[e.S]:
+			if len(cur) > 0 {
+				paths = append(paths, cur)
+			}
+			cur = []int{i}
+		default:
+			// TLC evaluated the action constraint on a successor it did not take: not part of the behaviour
+			g.Skipped++
+		}
+	}
+	if len(cur) > 0 {
+		paths = append(paths, cur)
 	}
 
 	return paths
